@@ -6,6 +6,8 @@ a row; get_ops(..., require_parents_complete) is compared with M1 on random stat
 SIM: generated DAG workloads under every shipped scheduler and the starter template, both
 container modes; the dependency clause is evaluated on the totally ordered transition log
 at the moment of every accepted ->RUNNING (P1), and polled at both phase boundaries.
+CHURN: 70,000 operators live and die in one process through the public API (guard of ->RUNNING and
+the ready filter compared with the model at every step); the other cases of that process follow.
 EXEC: scripts that start children before their parents (same container, other container
 while the parent runs / failed / is suspended); such a start must raise and not execute."""
 import random
@@ -35,16 +37,24 @@ N_SIM = {"quick": 40, "thorough": 600}
 N_MIX = {"quick": 120, "thorough": 4000}
 REQUIRE = {
     "quick": {"dags_enumerated": 33867, "running_events_with_parents": 800, "rejected:dependency": 100,
-              "get_ops_vectors_checked": 5000, "sim_runs": 100},
+              "get_ops_vectors_checked": 5000, "sim_runs": 100, "churn_operators": 2 * 70000,
+              "churn_dependency_refusals": 5000},
     "thorough": {"dags_enumerated": 2131019, "running_events_with_parents": 50000, "rejected:dependency": 3000,
-                 "get_ops_vectors_checked": 100000, "sim_runs": 2000},
+                 "get_ops_vectors_checked": 100000, "sim_runs": 2000, "churn_operators": 16 * 70000,
+                 "churn_dependency_refusals": 40000},
 }
 CHUNK = 2048
+
+
+CHURN_OPS = 70000
 
 
 def cases(tier, seed, shard, nshards):
     rng = rng_for(ID, seed, shard)
     idx = 0
+    if tier == "thorough" or shard < 2:
+        # a long object history in this process first: everything after it runs in a "seasoned" interpreter
+        yield {"kind": "churn", "ops": CHURN_OPS, "seed": rng.getrandbits(32)}
     for n in range(1, MAXN[tier] + 1):
         total = gen.count_dags(n)
         for lo in range(0, total, CHUNK):
@@ -74,6 +84,7 @@ def cases(tier, seed, shard, nshards):
 def check_dag_range(case, mon):
     from .. import sut
     from eudoxia.workload.runtime_status import OperatorState
+    from ..model import ALLOWED
     n, lo, hi = case["n"], case["lo"], case["hi"]
     rng = random.Random(case["seed"])
     states = list(OperatorState)
@@ -107,9 +118,19 @@ def check_dag_range(case, mon):
             kpos = {id(o): i for i, o in enumerate(keys)}
             if len(keys) != n or len(kpos) != n or any(kpos[id(ops[i])] > kpos[id(ops[k])] for k in range(n) for i in parents[k]):
                 mon.fail("status-order", f"operator_states does not list every operator once, parents first, for DAG {parents}")
-            vec = [rng.choice(states) for _ in range(n)]
-            for o, st in zip(ops, vec):
-                rs.operator_states[o] = st
+            # a reachable state vector, produced through the public transition() API only (a status object may
+            # keep derived bookkeeping that only transition() maintains); the expected vector is tracked here
+            cur = ["pending"] * n
+            for _ in range(rng.randint(0, 6 * n)):
+                k = rng.randrange(n)
+                nxt = [b for (a, b) in sorted(ALLOWED) if a == cur[k] and
+                       (b != "running" or all(cur[i] == "completed" for i in parents[k]))]
+                if not nxt:
+                    continue
+                tgt = rng.choice(nxt)
+                rs.transition(ops[k], OperatorState(tgt))
+                cur[k] = tgt
+            vec = [OperatorState(c) for c in cur]
             want_states = rng.sample(states, rng.randint(1, 3))
             for req in (False, True):
                 got = rs.get_ops(want_states, require_parents_complete=req)
@@ -127,9 +148,77 @@ def check_dag_range(case, mon):
     mon.hit({"n": n, "range": [lo, hi], "example": gen.dag_from_index(n, hi - 1)})
 
 
+def check_churn(case, mon):
+    """Tens of thousands of operators live and die in this process, all through the public API; at every step
+    the dependency guard of ->RUNNING and the ready filter are compared with the model."""
+    from .. import sut
+    from eudoxia.workload.runtime_status import OperatorState
+    from ..model import ALLOWED
+    rng = random.Random(case["seed"])
+    made = 0
+    bad = 0
+    while made < case["ops"] and bad < 3:
+        n = rng.randint(1, 6)
+        parents = gen.dag_from_index(n, rng.randrange(gen.count_dags(n)))
+        p = sut.Pipeline(f"churn{made}", rng.choice(list(sut.Priority)))
+        ops = []
+        for k in range(n):
+            ops.append(p.new_operator([ops[i] for i in parents[k]] or None))
+        made += n
+        rs = p.runtime_status()
+        cur = ["pending"] * n
+        for _ in range(5 * n):
+            k = rng.randrange(n)
+            ready = all(cur[i] == "completed" for i in parents[k])
+            if cur[k] == "assigned" and not ready and rng.random() < 0.5:
+                # inadmissible start: must be refused and leave the state alone
+                try:
+                    rs.transition(ops[k], OperatorState.RUNNING)
+                    refused = False
+                except Exception:
+                    refused = True
+                mon.count("churn_dependency_refusals")
+                if not refused or ops[k].state().value != "assigned":
+                    bad += 1
+                    mon.fail("dependency-not-rejected", f"after {made} operators in this process: ->RUNNING of an operator with "
+                             f"an unfinished parent was {'accepted' if not refused else 'refused but changed the state'} "
+                             f"(DAG {parents}, states {cur}, operator {k})", operators_created=made)
+                    break
+                continue
+            nxt = [b for (a, b) in sorted(ALLOWED) if a == cur[k] and (b != "running" or ready)]
+            if not nxt:
+                continue
+            # drift towards completion so that most operators finish
+            tgt = "completed" if "completed" in nxt and rng.random() < 0.8 else rng.choice(nxt)
+            try:
+                rs.transition(ops[k], OperatorState(tgt))
+            except Exception as e:
+                bad += 1
+                mon.fail("admissible-transition-refused", f"after {made} operators in this process: {cur[k]}->{tgt} refused "
+                         f"({type(e).__name__}: {e}) (DAG {parents}, states {cur}, operator {k})", operators_created=made)
+                break
+            if tgt == "running":
+                mon.count("churn_running_accepted")
+            cur[k] = tgt
+        else:
+            got = rs.get_ops([OperatorState.PENDING, OperatorState.FAILED, OperatorState.ASSIGNED], require_parents_complete=True)
+            exp = {id(ops[k]) for k in range(n) if cur[k] in ("pending", "failed", "assigned")
+                   and all(cur[i] == "completed" for i in parents[k])}
+            mon.count("churn_ready_filters_checked")
+            if {id(o) for o in got} != exp or len(got) != len(exp):
+                bad += 1
+                mon.fail("get-ops", f"after {made} operators in this process: ready filter returned {sorted(ops.index(o) for o in got)}, "
+                                    f"want {sorted(k for k in range(n) if id(ops[k]) in exp)} (DAG {parents}, states {cur})",
+                         operators_created=made)
+    mon.count("churn_operators", made)
+    mon.hit({"kind": "churn", "operators": made})
+
+
 def run_case(case, mon):
     if case["kind"] == "dags":
         return check_dag_range(case, mon)
+    if case["kind"] == "churn":
+        return check_churn(case, mon)
     if case["kind"] == "sim":
         _sim.run_sim_case(case, mon, ID, nontrivial=lambda h: h.events.get("running_events_with_parents", 0) > 0)
         return
